@@ -192,13 +192,13 @@ class PropertyRun:
             still = []
             self._retries = getattr(self, "_retries", 0)
             for v in bad:
-                if self._retries >= 6:
+                if self._retries >= 3:
                     # enough evidence that this run has failing obligations; do not spend minutes per instance
                     still.append(([o for o in ob_by_name[name] if o.path_id == v.path_id][0], v))
                     continue
                 self._retries += 1
                 ob = [o for o in ob_by_name[name] if o.path_id == v.path_id][0]
-                v2 = solve_one((ob.name, to_smt2(ob), timeout_ms * 3, ob.inputs, False, ob.kind, ob.path_id, ob.line, False))
+                v2 = solve_one((ob.name, to_smt2(ob), timeout_ms * 2, ob.inputs, False, ob.kind, ob.path_id, ob.line, False))
                 self.solver_time[v2.backend] = self.solver_time.get(v2.backend, 0.0) + v2.seconds
                 if v2.status != "unsat":
                     still.append((ob, v2))
